@@ -312,3 +312,94 @@ def random_schema(rnd, tries=60, **kw):
         sc.stats = stats
         return sc
     return None
+
+
+def _mk_sch(spec, sid):
+    try:
+        ref = RefSchema(spec)
+    except (SchemaRejected, TooComplex):
+        return None
+    if not ref.well_founded() or ref.strong_dead_ends or not ref.text_merge_safe():
+        return None
+    try:
+        s = Schema(spec)
+    except Exception:
+        return None
+    if not default_fillable(s):
+        return None
+    sc = Sch.__new__(Sch)
+    sc.id = sid
+    sc.schema = s
+    sc.ref = ref
+    sc.cls = "random"
+    sc.leaf = ref.leaf
+    sc.spec = spec
+    sc.stats = {}
+    return sc
+
+
+def mark_schema(rnd, tries=20):
+    """Random schema centred on marks: 3-4 mark types with dense, often asymmetric exclusion,
+    several textblock types that allow different subsets of them, an inline leaf."""
+    for _ in range(tries):
+        names = ["m%d" % i for i in range(rnd.randint(3, 4))]
+        marks = {}
+        for nm in names:
+            sp = {}
+            r = rnd.random()
+            if r < 0.55:
+                sp["excludes"] = " ".join(rnd.sample(names, rnd.randint(1, 2)))
+            elif r < 0.65:
+                sp["excludes"] = ""
+            elif r < 0.72:
+                sp["excludes"] = "_"
+            if rnd.random() < 0.2:
+                sp["inclusive"] = False
+            if rnd.random() < 0.25:
+                sp["attrs"] = {"k": {"default": 1}}
+            marks[nm] = sp
+        nodes = {"doc": {"content": "block+"}, "text": {"group": "inline"}, "i": {"inline": True, "group": "inline"}}
+        for j in range(rnd.randint(2, 4)):
+            sp = {"content": "inline*", "group": "block"}
+            r = rnd.random()
+            if r < 0.3:
+                sp["marks"] = "_"
+            elif r < 0.75:
+                sp["marks"] = " ".join(rnd.sample(names, rnd.randint(1, len(names) - 1)))
+            elif r < 0.85:
+                sp["marks"] = ""
+            nodes["p%d" % j] = sp
+        if rnd.random() < 0.5:
+            nodes["q"] = {"content": "block+", "group": "block"}
+        sc = _mk_sch({"nodes": nodes, "marks": marks}, "random")
+        if sc is not None:
+            return sc
+    return None
+
+
+_WRAP_TEMPLATES = ["{a}", "{a}+", "{a}*", "{a} {a}+", "{a} {b}", "({a} | {b})+", "{a} {b}?", "{a}? {b}", "({a} | {b}) {a}", "{a}{{2}}", "{a} {b}*"]
+
+
+def wrap_schema(rnd, tries=30):
+    """Random schema centred on wrapper chains: 4-6 container types whose content is a small
+    expression over containers and leaves ('x', 'x+', 'x x+', '(x|y)+', ...), so that a type may
+    be the only child of one parent but not of another."""
+    for _ in range(tries):
+        conts = ["c%d" % i for i in range(rnd.randint(4, 6))]
+        leaves = ["l0", "l1"]
+        nodes = {"text": {"group": "inline"}, "l0": {}, "l1": {"attrs": {"q": {}}} if rnd.random() < 0.3 else {}}
+        for k, c in enumerate(conts):
+            pool = conts[k + 1:] + leaves if rnd.random() < 0.8 else conts + leaves
+            a, b = rnd.choice(pool), rnd.choice(pool)
+            sp = {"content": rnd.choice(_WRAP_TEMPLATES).format(a=a, b=b)}
+            if rnd.random() < 0.15:
+                sp["attrs"] = {"q": {}}
+            nodes[c] = sp
+        a, b = rnd.choice(conts), rnd.choice(conts)
+        nodes["doc"] = {"content": rnd.choice(["({a} | {b})+", "{a}+", "{a} {b}*", "({a} | {b} | l0)+"]).format(a=a, b=b)}
+        order = list(nodes)
+        rnd.shuffle(order)
+        sc = _mk_sch({"nodes": {n: nodes[n] for n in order}}, "random")
+        if sc is not None:
+            return sc
+    return None
